@@ -17,12 +17,41 @@ variable {F : Nat → Option (List Nat)}
 theorem good_mk2 {c : Cfg} {tid : Tid} {t t' : Th} {s1' s2' : Shared} {il : Option Tid} {ca : List Elem} {ns : Nat}
     {w1 w2 : Queue.Thread}
     (hg : Good c) (ht : c.ths[tid]? = some t) (hr : t'.role = t.role) (hti : TI t')
-    (hil : ILockStep c tid t t' il) (e1 : v1 t' = w1) (e2 : v2 t' = w2)
+    (hil : ILockStep c tid t t' il) (hA : StepAux c tid t t' s1' ns) (e1 : v1 t' = w1) (e2 : v2 t' = w2)
     (h1 : Queue.Live { sh := s1', ths := (q1cfg c).ths.set tid w1 })
     (h2 : Queue.Live { sh := s2', ths := (q2cfg c).ths.set tid w2 })
     (hc1 : s1'.timeout = false ∧ s1'.ignoreError = false) (hc2 : s2'.timeout = false ∧ s2'.ignoreError = false) :
     Good { c with s1 := s1', s2 := s2', ths := c.ths.set tid t', ilock := il, cache := ca, nsub := ns } :=
-  good_mk hg ht hr hti hil (e1 ▸ h1) (e2 ▸ h2) hc1 hc2
+  good_mk hg ht hr hti hil hA (e1 ▸ h1) (e2 ▸ h2) hc1 hc2
+
+/-- `enqueue_done` of the input queue is monotone along the steps of the thread in slot `tid` of its view -/
+theorem done1_mono {c : Cfg} {tid : Tid} {q q' : Queue.Thread} {alt : Bool} {l : String} {s1' : Shared} (hg : Good c)
+    (hq : (q1cfg c).ths[tid]? = some q) (hst : stepThread c.s1 q tid alt = some (l, s1', q')) :
+    c.s1.enqueueDone = true → s1'.enqueueDone = true := by
+  intro hd
+  have hs : Queue.step (q1cfg c) tid alt = some (l, { sh := s1', ths := (q1cfg c).ths.set tid q' }) := by
+    simp only [Queue.step, hq]
+    show (match stepThread c.s1 q tid alt with | none => none | some (lbl, s', t') => _) = _
+    rw [hst]
+  exact done_mono hg.live1.base hs hd
+
+theorem aux_cons {c : Cfg} {tid : Tid} {t t' : Th} {s1' : Shared} {ns : Nat} (hr : t.role = .cons)
+    (hr' : t'.role = t.role) (mono : c.s1.enqueueDone = true → s1'.enqueueDone = true) (hns : c.nsub ≤ ns)
+    (hsub : t'.cpc = .boot ∨ t'.cpc = .submit ∨ c.ths.length - 1 ≤ ns) : StepAux c tid t t' s1' ns :=
+  ⟨mono, fun ho => absurd ho.1 (by rw [hr', hr]; simp), ⟨hns, fun _ => hsub⟩, by simp [Th.started, hr', hr],
+    .inl (by simp [Th.started, hr])⟩
+
+theorem aux_task {c : Cfg} {tid : Tid} {t t' : Th} {s1' : Shared} (hr : t.role ≠ .cons)
+    (mono : c.s1.enqueueDone = true → s1'.enqueueDone = true) (owes : Owes t' → s1'.enqueueDone = true)
+    (st' : t'.started = true) (st : t.started = true ∨ c.gate tid = true) : StepAux c tid t t' s1' c.nsub :=
+  ⟨mono, owes, ⟨Nat.le_refl _, fun h => absurd h hr⟩, st', st⟩
+
+theorem sub_of {c : Cfg} {t : Th} (hi : Inv c) (ht : c.ths[0]? = some t) (h1 : t.cpc ≠ .boot) (h2 : t.cpc ≠ .submit) :
+    c.ths.length - 1 ≤ c.nsub := by
+  rcases hi.sub t ht with h | h | h
+  · exact absurd h h1
+  · exact absurd h h2
+  · exact h
 
 theorem pcKind_some (pc : Pc) (h1 : pc ≠ .start) (h2 : pc ≠ .done) : ∃ k, pcKind pc = some k := by
   cases pc <;> simp_all [pcKind] <;> (rename_i c; cases c <;> simp)
@@ -223,11 +252,15 @@ theorem good_stepCons {c c' : Cfg} {tid : Tid} {t : Th} {alt : Bool} {lbl : Stri
     split at h
     · simp at h
     split at h <;> simp only [Option.some.injEq, Prod.mk.injEq] at h <;> obtain ⟨-, rfl⟩ := h
-    · refine good_mk2 hg ht (beginIter_role c t) (beginIter_TI hr hti (.inl hcpc)) (.keep ?_)
+    · rename_i hnt
+      have hnt' : c.ths.length - 1 = 0 := by simpa [Cfg.nTasks] using hnt
+      refine good_mk2 hg ht (beginIter_role c t) (beginIter_TI hr hti (.inl hcpc)) (.keep ?_)
+        (aux_cons hr (beginIter_role c t) id (Nat.le_refl _) (.inr (.inr (by rw [hnt']; exact Nat.zero_le _))))
         (v1_cons (by rw [beginIter_role]; exact hr) (beginIter_cpc c t)) rfl (live_keep hg.live1 hq1)
         (l2_beginIter hg ht hr (.inl hcpc)) hc1 hc2
       simp [HoldsI, beginIter_role, hr]
-    · refine good_mk2 (t' := { t with cpc := .submit }) hg ht rfl ?_ (.keep ?_) (v1_cons hr (by simp)) (v2_cons hr)
+    · refine good_mk2 (t' := { t with cpc := .submit }) hg ht rfl ?_ (.keep ?_)
+        (aux_cons hr rfl id (Nat.le_refl _) (.inr (.inl rfl))) (v1_cons hr (by simp)) (v2_cons hr)
         (live_keep hg.live1 hq1) (live_keep hg.live2 hq2) hc1 hc2
       · unfold TI at hti ⊢; simpa [hr, hcpc] using hti
       · simp [HoldsI, hr]
@@ -240,12 +273,14 @@ theorem good_stepCons {c c' : Cfg} {tid : Tid} {t : Th} {alt : Bool} {lbl : Stri
     simp only [Option.some.injEq, Prod.mk.injEq] at h
     obtain ⟨-, rfl⟩ := h
     split
-    · refine good_mk2 hg ht (beginIter_role c t) (beginIter_TI hr hti (.inr hcpc)) (.keep ?_)
+    · rename_i hge
+      refine good_mk2 hg ht (beginIter_role c t) (beginIter_TI hr hti (.inr hcpc)) (.keep ?_)
+        (aux_cons hr (beginIter_role c t) id (Nat.le_succ _) (.inr (.inr (by simpa [Cfg.nTasks] using hge))))
         (v1_cons (by rw [beginIter_role]; exact hr) (beginIter_cpc c t)) rfl (live_keep hg.live1 hq1)
         (l2_beginIter hg ht hr (.inr hcpc)) hc1 hc2
       simp [HoldsI, beginIter_role, hr]
-    · exact good_mk2 hg ht rfl hti (.keep Iff.rfl) hv1 (v2_cons hr) (live_keep hg.live1 hq1)
-        (live_keep hg.live2 hq2) hc1 hc2
+    · exact good_mk2 hg ht rfl hti (.keep Iff.rfl) (aux_cons hr rfl id (Nat.le_succ _) (.inr (.inl hcpc))) hv1
+        (v2_cons hr) (live_keep hg.live1 hq1) (live_keep hg.live2 hq2) hc1 hc2
   · -- iter
     rename_i hcpc
     have hv1 : v1 t = inertT := v1_cons hr (by simp [hcpc])
@@ -273,7 +308,9 @@ theorem good_stepCons {c c' : Cfg} {tid : Tid} {t : Th} {alt : Bool} {lbl : Stri
     have hoth := others_set_nc (q := b') (q2_others_nc hi)
     have hkb' : b'.prog.kind = .batch := by rw [hprog']; exact hkb
     have hig := afterIter_ig c t.b.pc s2' { t with b := b' }
+    have hsub := sub_of hi ht (by simp [hcpc]) (by simp [hcpc])
     refine good_mk2 hg ht (afterIter_role _ _ _ _) ?_ (.keep ?_)
+      (aux_cons hr (afterIter_role _ _ _ _) id (Nat.le_refl _) (.inr (.inr hsub)))
       (v1_cons (by rw [afterIter_role]; exact hr) (afterIter_cpc (by simp [hcpc])))
       (v2_cons (by rw [afterIter_role]; exact hr)) (live_keep hg.live1 hq1) ?_ hc1
       ⟨by rw [hig.1, k1]; exact hi.to2, by rw [hig.2, k3]; exact hi.ig2⟩
@@ -285,7 +322,7 @@ theorem good_stepCons {c c' : Cfg} {tid : Tid} {t : Th} {alt : Bool} {lbl : Stri
       split
       · rename_i hbr
         have hbr' : t.b.pc = .bRaise := by simpa using hbr
-        exact ⟨ha1, ha2, (hA hbr').1⟩
+        exact ⟨ha1, ha2, (hA hbr').1, .inl hkb'⟩
       · rename_i hbr
         have hbr' : t.b.pc ≠ .bRaise := by simpa using hbr
         have hnd' : b'.pc ≠ .done := hp2 hkind hbr'
@@ -333,24 +370,31 @@ theorem good_stepCons {c c' : Cfg} {tid : Tid} {t : Th} {alt : Bool} {lbl : Stri
     obtain ⟨hp1, -⟩ := stepThread_pc l s2' b' hst
     have h1 := live_deleg (qc := q2cfg c) hg.live2 hi.to2 hq2 hst (sameFields_refl _)
     have hc2' : s2'.timeout = false ∧ s2'.ignoreError = false := ⟨by rw [k1]; exact hi.to2, by rw [k3]; exact hi.ig2⟩
+    have hsub := sub_of hi ht (by simp [hcpc]) (by simp [hcpc])
+    have hkb' : b'.prog.kind = .stopper := by rw [hprog']; exact hkb
     by_cases hd : b'.pc = .done
     · by_cases ho : b'.outcome.isNone = true
       · simp only [hd, beq_self_eq_true, if_true, ho]
         refine good_mk2 (t' := { t with b := b', a := stopperAt t.a, cpc := .upstop }) hg ht rfl ?_ (.keep ?_)
+          (aux_cons hr rfl id (Nat.le_refl _) (.inr (.inr hsub)))
           (w1 := stopperAt t.a) (by simp [v1, hr]) (v2_cons hr)
           (live_inert_to_stopper (qc := q1cfg c) hg.live1 hq1 ha2) h1 hc1 hc2'
-        · unfold TI; simp [hr, hd, stopperAt, Prog.kind, ha2]
+        · unfold TI
+          simp [hr, hd, hkb', show (stopperAt t.a).prog.kind = PKind.stopper from rfl,
+            show (stopperAt t.a).pc = Pc.mAcq from rfl, show (stopperAt t.a).result = t.a.result from rfl, ha2]
         · simp [HoldsI, hr]
       · simp only [hd, beq_self_eq_true, if_true, ho]
         refine good_mk2 (t' := { t with b := b', cpc := .shutdown }) hg ht rfl ?_ (.keep ?_)
+          (aux_cons hr rfl id (Nat.le_refl _) (.inr (.inr hsub)))
           (v1_cons hr (by simp)) (v2_cons hr) (live_keep hg.live1 hq1) h1 hc1 hc2'
-        · unfold TI; simp [hr, hd, ha1, ha2]
+        · unfold TI; simp [hr, hd, ha1, ha2, hkb']
         · simp [HoldsI, hr]
     · have hd' : (b'.pc == Pc.done) = false := by simpa using hd
       simp only [hd', Bool.false_eq_true, if_false]
       refine good_mk2 (t' := { t with b := b' }) hg ht rfl ?_ (.keep ?_)
+        (aux_cons hr rfl id (Nat.le_refl _) (.inr (.inr hsub)))
         (v1_cons hr (by simp [hcpc])) (v2_cons hr) (live_keep hg.live1 hq1) h1 hc1 hc2'
-      · unfold TI; simp [hr, hcpc, ha1, ha2, hprog', hkb, hp1, hd]
+      · unfold TI; simp [hr, hcpc, ha1, ha2, hkb', hp1, hd]
       · simp [HoldsI, hr]
   · -- upstop
     rename_i hcpc
@@ -364,6 +408,8 @@ theorem good_stepCons {c c' : Cfg} {tid : Tid} {t : Th} {alt : Bool} {lbl : Stri
     unfold TI at hti
     simp only [hr, hcpc] at hti
     obtain ⟨ha1, ha2, hbd, hns, hnd⟩ := hti
+    have hsub := sub_of hi ht (by simp [hcpc]) (by simp [hcpc])
+    have hmono := done1_mono hg hq1 hst
     have htok : TOK t.a := hg.live1.base.tok t.a (List.mem_of_getElem? hq1)
     obtain ⟨k1, -, k3⟩ := stepThread_const l s1' a' hst
     obtain ⟨htok', hprog', -⟩ := stepThread_data l s1' a' hst htok
@@ -374,14 +420,16 @@ theorem good_stepCons {c c' : Cfg} {tid : Tid} {t : Th} {alt : Bool} {lbl : Stri
     have hd1 := live_deleg (qc := q1cfg c) hg.live1 hi.to1 hq1 hst (sameFields_refl _)
     by_cases hd : a'.pc = .done
     · refine good_mk2 (t' := { t with a := a', cpc := (if a'.pc == .done then CPc.shutdown else CPc.upstop) })
-        hg ht rfl ?_ (.keep ?_) (w1 := inertT) (by simp [v1, hr, hd]) (v2_cons hr) ?_ (live_keep hg.live2 hq2) hc1' hc2
+        hg ht rfl ?_ (.keep ?_) (aux_cons hr rfl hmono (Nat.le_refl _) (.inr (.inr hsub)))
+        (w1 := inertT) (by simp [v1, hr, hd]) (v2_cons hr) ?_ (live_keep hg.live2 hq2) hc1' hc2
       · unfold TI; simp [hr, hd, hka', hres', hbd]
       · simp [HoldsI, hr]
       · have := live_done_to_inert (tid := 0) (a := a') hd1
           (by show ((q1cfg c).ths.set 0 a')[0]? = some a'; simp [htid1]) (by rw [hka']; simp) hd
         simpa [List.set_set] using this
     · refine good_mk2 (t' := { t with a := a', cpc := (if a'.pc == .done then CPc.shutdown else CPc.upstop) })
-        hg ht rfl ?_ (.keep ?_) (w1 := a') (by simp [v1, hr, hd]) (v2_cons hr) hd1 (live_keep hg.live2 hq2) hc1' hc2
+        hg ht rfl ?_ (.keep ?_) (aux_cons hr rfl hmono (Nat.le_refl _) (.inr (.inr hsub)))
+        (w1 := a') (by simp [v1, hr, hd]) (v2_cons hr) hd1 (live_keep hg.live2 hq2) hc1' hc2
       · unfold TI; simp [hr, hd, hka', hres', hbd, hp1]
       · simp [HoldsI, hr]
   · -- shutdown
@@ -390,7 +438,9 @@ theorem good_stepCons {c c' : Cfg} {tid : Tid} {t : Th} {alt : Bool} {lbl : Stri
     rw [hv1] at hq1
     (repeat' split at h) <;> simp only [Option.some.injEq, Prod.mk.injEq, reduceCtorEq] at h
     obtain ⟨-, rfl⟩ := h
-    refine good_mk2 (t' := { t with cpc := .fin }) hg ht rfl ?_ (.keep ?_) (v1_cons hr (by simp)) (v2_cons hr)
+    have hsub := sub_of hi ht (by simp [hcpc]) (by simp [hcpc])
+    refine good_mk2 (t' := { t with cpc := .fin }) hg ht rfl ?_ (.keep ?_)
+      (aux_cons hr rfl id (Nat.le_refl _) (.inr (.inr hsub))) (v1_cons hr (by simp)) (v2_cons hr)
       (live_keep hg.live1 hq1) (live_keep hg.live2 hq2) hc1 hc2
     · unfold TI at hti ⊢; simpa [hr, hcpc] using hti
     · simp [HoldsI, hr]
@@ -403,7 +453,8 @@ theorem v2_l1 {t : Th} (hr : t.role = .l1) : v2 t = inertT := by simp [v2, hr]
 /-- a plain `Q1` step of a first-level task -/
 theorem good_l1_deleg {c : Cfg} {tid : Tid} {t t' : Th} {alt : Bool} {l : String} {s1' : Shared} {a' : Queue.Thread}
     (hg : Good c) (ht : c.ths[tid]? = some t) (hr : t.role = .l1)
-    (hst : stepThread c.s1 t.a tid alt = some (l, s1', a')) (hr' : t'.role = t.role) (ha' : t'.a = a') :
+    (hst : stepThread c.s1 t.a tid alt = some (l, s1', a')) (hr' : t'.role = t.role) (ha' : t'.a = a')
+    (hst0 : t.started = true ∨ c.gate tid = true) :
     Good { c with s1 := s1', ths := c.ths.set tid t' } := by
   have hi := hg.inv
   have hq1 := q1_get ht
@@ -417,7 +468,11 @@ theorem good_l1_deleg {c : Cfg} {tid : Tid} {t t' : Th} {alt : Bool} {l : String
   obtain ⟨k1, -, k3⟩ := stepThread_const l s1' a' hst
   obtain ⟨-, hprog', -⟩ := stepThread_data l s1' a' hst htok
   have hr1 : t'.role = .l1 := by rw [hr', hr]
-  refine good_mk2 hg ht hr' ?_ (.keep ?_) (v1_l1 hr1) (v2_l1 hr1)
+  have hp1 := (stepThread_pc l s1' a' hst).1
+  refine good_mk2 hg ht hr' ?_ (.keep ?_)
+    (aux_task (by rw [hr]; simp) (done1_mono hg hq1 hst) (fun ho => absurd ho.1 (by rw [hr1]; simp))
+      (by simp [Th.started, hr1, ha', hp1]) hst0)
+    (v1_l1 hr1) (v2_l1 hr1)
     (by rw [ha']; exact live_deleg (qc := q1cfg c) hg.live1 hi.to1 hq1 hst (sameFields_refl _))
     (live_keep hg.live2 hq2) ⟨by rw [k1]; exact hi.to1, by rw [k3]; exact hi.ig1⟩ ⟨hi.to2, hi.ig2⟩
   · unfold TI; simp only [hr1]; rw [ha', hprog']; exact hti
@@ -431,11 +486,12 @@ theorem good_stepL1 {c c' : Cfg} {tid : Tid} {t : Th} {alt : Bool} {lbl : String
   split at h
   · -- start
     (repeat' split at h) <;> simp only [Option.some.injEq, Prod.mk.injEq, reduceCtorEq] at h
-    rename_i l s1' a' hst
+    rename_i hgate _ l s1' a' hst
     obtain ⟨-, rfl⟩ := h
-    exact good_l1_deleg (t' := { t with a := a' }) hg ht hr hst rfl rfl
+    exact good_l1_deleg (t' := { t with a := a' }) hg ht hr hst rfl rfl (.inr hgate)
   · -- eNext
     rename_i hpc
+    have hst0 : t.started = true := by simp [Th.started, hr, hpc]
     split at h
     · simp at h
     · split at h
@@ -449,7 +505,10 @@ theorem good_stepL1 {c c' : Cfg} {tid : Tid} {t : Th} {alt : Bool} {lbl : String
         unfold TI at hti
         simp only [hr] at hti
         refine good_mk2 (t' := { t with a := { t.a with pc := .tAcq, rets := retOf t.a :: t.more, reraise := none } })
-          hg ht rfl ?_ (.keep ?_) (v1_l1 hr) (v2_l1 hr) ?_ (live_keep hg.live2 hq2) ⟨hi.to1, hi.ig1⟩ ⟨hi.to2, hi.ig2⟩
+          hg ht rfl ?_ (.keep ?_)
+          (aux_task (by rw [hr]; simp) id (fun ho => absurd ho.1 (by rw [hr]; simp)) (by simp [Th.started, hr])
+            (.inl hst0))
+          (v1_l1 hr) (v2_l1 hr) ?_ (live_keep hg.live2 hq2) ⟨hi.to1, hi.ig1⟩ ⟨hi.to2, hi.ig2⟩
         · unfold TI; simp only [hr]; exact hti
         · simp [HoldsI, hr]
         · exact live_enext_stop (c := q1cfg c) hg.live1 hi.to1 hq1 hpc ⟨rfl, rfl, rfl, rfl, rfl, rfl⟩
@@ -458,13 +517,14 @@ theorem good_stepL1 {c c' : Cfg} {tid : Tid} {t : Th} {alt : Bool} {lbl : String
         · rename_i l s1' a' hst
           simp only [Option.some.injEq, Prod.mk.injEq] at h
           obtain ⟨-, rfl⟩ := h
-          exact good_l1_deleg hg ht hr hst rfl rfl
-  · split at h
+          exact good_l1_deleg hg ht hr hst rfl rfl (.inl hst0)
+  · rename_i hns _
+    split at h
     · simp at h
     · rename_i l s1' a' hst
       simp only [Option.some.injEq, Prod.mk.injEq] at h
       obtain ⟨-, rfl⟩ := h
-      exact good_l1_deleg hg ht hr hst rfl rfl
+      exact good_l1_deleg hg ht hr hst rfl rfl (.inl (by simpa [Th.started, hr] using hns))
 
 /-! ### second-level tasks -/
 
@@ -497,6 +557,31 @@ theorem batchEnd_some {pc : Pc} {res : List Elem} {a' : Queue.Thread} {cache : L
   unfold batchEnd at h
   (repeat' split at h) <;> simp_all
 
+theorem batchEnd_stop {pc : Pc} {res : List Elem} {a' : Queue.Thread} {cache cache' : List Elem} {r : List Nat}
+    (h : batchEnd pc res a' cache = some (.stop r, cache')) : pc = .bRaise := by
+  unfold batchEnd at h
+  (repeat' split at h) <;> simp_all
+
+theorem stopped_false_of_TL {q : Queue.Thread} (htl : TL q) (hk : pcKind q.pc = some .producer)
+    (hr : tRegion q.pc = false) : stopped q = false := by
+  unfold TL at htl
+  cases hpc : q.pc <;> simp_all [pcKind, tRegion] <;> (rename_i cc; cases cc <;> simp_all)
+
+/-- a producer that is `done` without having run `_stop_enqueue`, while neither a failure nor a stop request is
+recorded, contradicts the counting of producers -/
+theorem no_early_by_count {qc : Queue.Cfg} {tid : Tid} {q : Queue.Thread} (hv : Queue.Live qc)
+    (hq : qc.ths[tid]? = some q) (hk : q.prog.kind = .producer) (hpc : q.pc = .done) (hst : stopped q = false)
+    (hd : qc.sh.enqueueDone = true) (hexc : qc.sh.exc.isSome = false) (hsr : qc.sh.stopRequested = false) : False := by
+  obtain ⟨e1, e2, e3⟩ := hv.base.cnt hsr
+  rw [enqueueDone_iff] at hd
+  rcases hd with hd | hd | ⟨-, hd2, hd3⟩
+  · rw [hexc] at hd; cases hd
+  · rw [hsr] at hd; cases hd
+  · have hip : isProd q = true := by simp [isProd, hk]
+    have hpt : pastT q = false := by simp [pastT, hip, hpc, hst]
+    have := countP_lt_of pastT isProd pastT_isProd (List.mem_of_getElem? hq) hip hpt
+    omega
+
 /-- what `afterPull` leaves: the `Q2` view, the constants, the thread's phase -/
 theorem afterPull_good {c : Cfg} {tid : Tid} {t : Th} (hg : Good c) (ht : c.ths[tid]? = some t) (hr : t.role = .l2)
     (hpc : t.b.pc = .eNext) (hres : t.a.result = []) (hkb : t.b.prog.kind = .producer) (r : Hand) :
@@ -504,16 +589,21 @@ theorem afterPull_good {c : Cfg} {tid : Tid} {t : Th} (hg : Good c) (ht : c.ths[
                  ths := (q2cfg c).ths.set tid (afterPull F c.fwd tid c.s2 t r).2.b } ∧
     ((afterPull F c.fwd tid c.s2 t r).1.timeout = false ∧ (afterPull F c.fwd tid c.s2 t r).1.ignoreError = false) ∧
     TI (afterPull F c.fwd tid c.s2 t r).2 ∧
-    ((afterPull F c.fwd tid c.s2 t r).2.x = .idle ∨ (afterPull F c.fwd tid c.s2 t r).2.x = .lockAcq) := by
+    ((afterPull F c.fwd tid c.s2 t r).2.x = .idle ∨ (afterPull F c.fwd tid c.s2 t r).2.x = .lockAcq) ∧
+    (Owes (afterPull F c.fwd tid c.s2 t r).2 → ∃ rets, r = .stop rets) ∧
+    (afterPull F c.fwd tid c.s2 t r).2.b.pc ≠ .start := by
   have hi := hg.inv
   have hq := q2_get ht
   rw [v2_l2 hr] at hq
   have hfail : ∀ (e : ErrKind) (t1 : Th), t1.b = t.b → t1.role = t.role → t1.a = t.a →
       Queue.Live { sh := (failPull e c.s2 t1).1, ths := (q2cfg c).ths.set tid (failPull e c.s2 t1).2.b } ∧
       ((failPull e c.s2 t1).1.timeout = false ∧ (failPull e c.s2 t1).1.ignoreError = false) ∧
-      TI (failPull e c.s2 t1).2 ∧ ((failPull e c.s2 t1).2.x = .idle ∨ (failPull e c.s2 t1).2.x = .lockAcq) := by
+      TI (failPull e c.s2 t1).2 ∧ ((failPull e c.s2 t1).2.x = .idle ∨ (failPull e c.s2 t1).2.x = .lockAcq) ∧
+      (Owes (failPull e c.s2 t1).2 → ∃ rets, r = .stop rets) ∧ (failPull e c.s2 t1).2.b.pc ≠ .start := by
     intro e t1 h1 h2 h3
-    refine ⟨?_, ⟨hi.to2, hi.ig2⟩, ?_, .inl rfl⟩
+    refine ⟨?_, ⟨hi.to2, hi.ig2⟩, ?_, .inl rfl, fun ho => ?_, by simp [failPull]⟩
+    rotate_left 2
+    · simp [Owes, failPull, tRegion] at ho
     · unfold failPull
       rw [h1]
       exact live_fail_any (c := q2cfg c) e hg.live2 hi.to2 hi.ig2 hq hpc ⟨rfl, rfl, rfl, rfl, rfl, rfl⟩
@@ -521,7 +611,7 @@ theorem afterPull_good {c : Cfg} {tid : Tid} {t : Th} (hg : Good c) (ht : c.ths[
       simp [h1, h2, h3, hr, hkb, hres]
   unfold afterPull
   split
-  · refine ⟨?_, ⟨hi.to2, hi.ig2⟩, ?_, .inl rfl⟩
+  · refine ⟨?_, ⟨hi.to2, hi.ig2⟩, ?_, .inl rfl, fun _ => ⟨_, rfl⟩, by simp⟩
     · exact live_enext_stop (c := q2cfg c) hg.live2 hi.to2 hq hpc
         ⟨rfl, rfl, rfl, by simp [hi.gen], rfl, rfl⟩
     · unfold TI; simp [hr, hkb, hres]
@@ -529,10 +619,13 @@ theorem afterPull_good {c : Cfg} {tid : Tid} {t : Th} (hg : Good c) (ht : c.ths[
   · rename_i v
     split
     · exact hfail _ _ rfl rfl rfl
-    · refine ⟨?_, ⟨hi.to2, hi.ig2⟩, ?_, .inr rfl⟩
+    · refine ⟨?_, ⟨hi.to2, hi.ig2⟩, ?_, .inr rfl, fun ho => ?_, by simp [hpc]⟩
       · exact live_fields (c := q2cfg c) hg.live2 hq ⟨rfl, rfl, rfl, rfl, rfl, rfl⟩
       · unfold TI; simp [hr, hkb, hres, hpc]
-    · refine ⟨?_, ⟨hi.to2, hi.ig2⟩, ?_, .inl rfl⟩
+      · simp [Owes] at ho
+    · refine ⟨?_, ⟨hi.to2, hi.ig2⟩, ?_, .inl rfl, fun ho => ?_, by simp⟩
+      rotate_left 2
+      · simp [Owes, tRegion] at ho
       · exact live_enext_val (c := q2cfg c) hg.live2 hi.to2 hq hpc ⟨rfl, rfl, rfl, rfl, rfl, rfl⟩
       · unfold TI; simp [hr, hkb, hres]
 
@@ -545,7 +638,7 @@ theorem postProd_spec (tid : Tid) (t : Th) (s2' : Shared) (b' : Queue.Thread) (h
      (b'.pc = .done ∧ (postProd tid t s2' b').b = b' ∧ (postProd tid t s2' b').x = .up ∧
         (postProd tid t s2' b').a = stopperAt t.a) ∨
      (b'.pc ≠ .eNext ∧ (postProd tid t s2' b').b = b' ∧ (postProd tid t s2' b').x = .idle ∧
-        (postProd tid t s2' b').a = t.a)) := by
+        (postProd tid t s2' b').a = t.a ∧ (b'.pc = .done → wantUp t.b.pc s2' b' = false))) := by
   refine ⟨postProd_role _ _ _ _, ?_⟩
   unfold postProd
   simp only []
@@ -561,7 +654,11 @@ theorem postProd_spec (tid : Tid) (t : Th) (s2' : Shared) (b' : Queue.Thread) (h
     · rename_i hd
       simp only [Bool.and_eq_true, beq_iff_eq] at hd
       exact .inr (.inr (.inl ⟨hd.1, rfl, rfl, rfl⟩))
-    · exact .inr (.inr (.inr ⟨he, rfl, hxi, rfl⟩))
+    · rename_i hd
+      refine .inr (.inr (.inr ⟨he, rfl, hxi, rfl, fun hdone => ?_⟩))
+      cases hw : wantUp t.b.pc s2' b' with
+      | false => rfl
+      | true => exact absurd (by simp [hdone, hw]) hd
 
 set_option maxHeartbeats 400000 in
 theorem good_stepL2 {c c' : Cfg} {tid : Tid} {t : Th} {alt : Bool} {lbl : String} (hg : Good c)
@@ -586,10 +683,13 @@ theorem good_stepL2 {c c' : Cfg} {tid : Tid} {t : Th} {alt : Bool} {lbl : String
     split at h
     · simp at h
     split at h <;> simp only [Option.some.injEq, Prod.mk.injEq, reduceCtorEq] at h
+    rename_i hgate
     obtain ⟨-, rfl⟩ := h
     obtain ⟨hxi, hres⟩ := l2_x_idle hr hti (by rw [hpc]; simp) (by rw [hpc]; simp)
     rw [v1_l2_off hr (by simp [hxi]) (by simp [hxi])] at hq1
     refine good_mk2 (t' := { t with b := { t.b with pc := .sAcq } }) hg ht rfl ?_ (.keep ?_)
+      (aux_task (by rw [hr]; simp) id (fun ho => by simp [Owes, hxi, tRegion] at ho) (by simp [Th.started, hr])
+        (.inr hgate))
       (v1_l2_off hr (by simp [hxi]) (by simp [hxi])) (v2_l2 hr) (live_keep hg.live1 hq1) ?_ hc1 hc2
     · unfold TI; simp [hr, hxi, hkb, hres]
     · simp [HoldsI, hr, hxi]
@@ -602,6 +702,8 @@ theorem good_stepL2 {c c' : Cfg} {tid : Tid} {t : Th} {alt : Bool} {lbl : String
       | stopper _ => rw [hprog] at hkb; cases hkb
   · -- eNext
     rename_i hpc
+    have hst0 : t.started = true := by simp [Th.started, hr, hpc]
+    have hnc : t.role ≠ .cons := by rw [hr]; simp
     split at h
     · -- lockAcq
       rename_i hxx
@@ -618,6 +720,7 @@ theorem good_stepL2 {c c' : Cfg} {tid : Tid} {t : Th} {alt : Bool} {lbl : String
         simp only [Option.some.injEq, Prod.mk.injEq] at h
         obtain ⟨-, rfl⟩ := h
         refine good_mk2 (t' := { t with hand := .item v.2, x := .lockRel }) hg ht rfl ?_ (.acq hil ?_)
+          (aux_task hnc id (fun ho => by simp [Owes] at ho) (by simp [Th.started, hr, hpc]) (.inl hst0))
           (v1_l2_off hr (by simp) (by simp)) (v2_l2 hr) (live_keep hg.live1 hq1) (live_keep hg.live2 hq2) hc1 hc2
         · unfold TI; simp [hr, hkb, hpc, hres]
         · simp [HoldsI, hr]
@@ -626,6 +729,7 @@ theorem good_stepL2 {c c' : Cfg} {tid : Tid} {t : Th} {alt : Bool} {lbl : String
         refine good_mk2
           (t' := { t with a := { t.a with pc := .bAcq, prog := .batchLoop c.bm1 false, result := [] }, x := .deq })
           hg ht rfl ?_ (.acq hil ?_)
+          (aux_task hnc id (fun ho => by simp [Owes] at ho) (by simp [Th.started, hr, hpc]) (.inl hst0))
           (w1 := { t.a with pc := .bAcq, prog := .batchLoop c.bm1 false, result := [] }) (by simp [v1, hr]) (v2_l2 hr)
           ?_ (live_keep hg.live2 hq2) hc1 hc2
         · unfold TI; simp [hr, hkb, hpc, show (Prog.batchLoop c.bm1 false).kind = PKind.batch from rfl]
@@ -659,7 +763,10 @@ theorem good_stepL2 {c c' : Cfg} {tid : Tid} {t : Th} {alt : Bool} {lbl : String
         simp only [Option.some.injEq, Prod.mk.injEq] at h
         obtain ⟨-, rfl⟩ := h
         obtain ⟨-, hnr⟩ := batchEnd_none hbe
-        refine good_mk2 (t' := { t with a := a' }) hg ht rfl ?_ (.keep ?_) (v1_l2_on hr (.inl hxx)) (v2_l2 hr)
+        refine good_mk2 (t' := { t with a := a' }) hg ht rfl ?_ (.keep ?_)
+          (aux_task hnc (done1_mono hg hq1 hst) (fun ho => by simp [Owes, hxx] at ho) (by simp [Th.started, hr, hpc])
+            (.inl hst0))
+          (v1_l2_on hr (.inl hxx)) (v2_l2 hr)
           (live_deleg (qc := q1cfg c) hg.live1 hi.to1 hq1 hst (sameFields_refl _)) (live_keep hg.live2 hq2) hc1' hc2
         · unfold TI; simp [hr, hxx, hkb, hpc, hka', hp1, hp2 hkind hnr]
         · simp [HoldsI, hr, hxx]
@@ -670,7 +777,22 @@ theorem good_stepL2 {c c' : Cfg} {tid : Tid} {t : Th} {alt : Bool} {lbl : String
           rcases batchEnd_some hbe with e | e
           · exact ⟨.inr (hB e).1, (hB e).2.2.1⟩
           · exact ⟨.inl (hA e).1, (hA e).2.2.1⟩
+        have hmono := done1_mono hg hq1 hst
+        have howes : Owes { t with a := a', hand := hd, x := .lockRel } → s1'.enqueueDone = true := by
+          intro ho
+          simp only [Owes, reduceCtorEq, false_and, or_false, true_and] at ho
+          obtain ⟨-, ho⟩ := ho
+          cases hd with
+          | item v => cases ho
+          | err e => cases ho
+          | stop r =>
+            have hbr := batchEnd_stop hbe
+            have hx := (hg.live1.base.xok t.a (List.mem_of_getElem? hq1)).2.2.2.2.1 (by simp [armed, hbr])
+            rcases hx with hx | hx
+            · exact hmono (hg.live1.base.i3 hx)
+            · rw [show (q1cfg c).sh.timeout = c.s1.timeout from rfl, hi.to1] at hx; cases hx
         refine good_mk2 (t' := { t with a := a', hand := hd, x := .lockRel }) hg ht rfl ?_ (.keep ?_)
+          (aux_task hnc hmono howes (by simp [Th.started, hr, hpc]) (.inl hst0))
           (v1_l2_off hr (by simp) (by simp)) (v2_l2 hr)
           (live_deleg_leave (qc := q1cfg c) hg.live1 hi.to1 hq1 hst (q1_others_nc hi ht ⟨hr, .inl hxx⟩)
             (by rw [hka']; simp) hend.1)
@@ -690,10 +812,15 @@ theorem good_stepL2 {c c' : Cfg} {tid : Tid} {t : Th} {alt : Bool} {lbl : String
       simp only [Option.some.injEq, Prod.mk.injEq] at h
       obtain ⟨-, rfl⟩ := h
       have hil' : c.ilock = some tid := by simpa using hil
-      obtain ⟨g1, g2, g3, g4⟩ := afterPull_good (F := F) hg ht hr hpc hres hkb t.hand
+      obtain ⟨g1, g2, g3, g4, g5, g6⟩ := afterPull_good (F := F) hg ht hr hpc hres hkb t.hand
       have hrole := afterPull_role F c.fwd tid c.s2 t t.hand
       have hr' : (afterPull F c.fwd tid c.s2 t t.hand).2.role = .l2 := by rw [hrole]; exact hr
+      have howes : Owes (afterPull F c.fwd tid c.s2 t t.hand).2 → c.s1.enqueueDone = true := by
+        intro ho
+        obtain ⟨rets, hh⟩ := g5 ho
+        exact hi.d1 t (List.mem_of_getElem? ht) ⟨hr, .inl ⟨hxx, by rw [hh]; trivial⟩⟩
       refine good_mk2 hg ht hrole g3 (.rel hil' ?_)
+        (aux_task hnc id howes (by simp [Th.started, hr', g6]) (.inl hst0))
         (v1_l2_off hr' (by rcases g4 with e | e <;> simp [e]) (by rcases g4 with e | e <;> simp [e])) (v2_l2 hr')
         (live_keep hg.live1 hq1) g1 hc1 g2
       rintro ⟨-, e | e⟩ <;> rcases g4 with e' | e' <;> rw [e'] at e <;> cases e
@@ -720,16 +847,27 @@ theorem good_stepL2 {c c' : Cfg} {tid : Tid} {t : Th} {alt : Bool} {lbl : String
       have hc1' : s1'.timeout = false ∧ s1'.ignoreError = false :=
         ⟨by rw [k1]; exact hi.to1, by rw [k3]; exact hi.ig1⟩
       have hd1 := live_deleg (qc := q1cfg c) hg.live1 hi.to1 hq1 hst (sameFields_refl _)
+      have hst0 : t.started = true := by simp [Th.started, hr, hpc]
+      have hnc : t.role ≠ .cons := by rw [hr]; simp
+      have hmono := done1_mono hg hq1 hst
       by_cases hd : a'.pc = .done
-      · refine good_mk2 (t' := { t with a := a', x := (if a'.pc == .done then XPc.idle else XPc.up) })
-          hg ht rfl ?_ (.keep ?_) (w1 := inertT) (by simp [v1, hr, hd]) (v2_l2 hr) ?_ (live_keep hg.live2 hq2) hc1' hc2
+      · have hdone1 : s1'.enqueueDone = true := by
+          have hmem : a' ∈ ({ sh := s1', ths := (q1cfg c).ths.set tid a' } : Queue.Cfg).ths :=
+            List.mem_of_getElem? (i := tid) (by show ((q1cfg c).ths.set tid a')[tid]? = some a'; simp [htid1])
+          have hx := (hd1.base.xok a' hmem).2.1 (by simp [hd, isStopper, hka'])
+          rw [enqueueDone_iff]; exact .inr (.inl hx)
+        refine good_mk2 (t' := { t with a := a', x := (if a'.pc == .done then XPc.idle else XPc.up) })
+          hg ht rfl ?_ (.keep ?_) (aux_task hnc hmono (fun _ => hdone1) (by simp [Th.started, hr, hpc]) (.inl hst0))
+          (w1 := inertT) (by simp [v1, hr, hd]) (v2_l2 hr) ?_ (live_keep hg.live2 hq2) hc1' hc2
         · unfold TI; simp [hr, hd, hkb, hpc, hres']
         · simp [HoldsI, hr, hd, hxx]
         · have := live_done_to_inert (tid := tid) (a := a') hd1
             (by show ((q1cfg c).ths.set tid a')[tid]? = some a'; simp [htid1]) (by rw [hka']; simp) hd
           simpa [List.set_set] using this
       · refine good_mk2 (t' := { t with a := a', x := (if a'.pc == .done then XPc.idle else XPc.up) })
-          hg ht rfl ?_ (.keep ?_) (w1 := a') (by simp [v1, hr, hd]) (v2_l2 hr) hd1 (live_keep hg.live2 hq2) hc1' hc2
+          hg ht rfl ?_ (.keep ?_)
+          (aux_task hnc hmono (fun ho => by simp [Owes, hd] at ho) (by simp [Th.started, hr, hpc]) (.inl hst0))
+          (w1 := a') (by simp [v1, hr, hd]) (v2_l2 hr) hd1 (live_keep hg.live2 hq2) hc1' hc2
         · unfold TI; simp [hr, hd, hkb, hpc, hka', hp1]
         · simp [HoldsI, hr, hd, hxx]
     · simp at h
@@ -753,12 +891,22 @@ theorem good_stepL2 {c c' : Cfg} {tid : Tid} {t : Th} {alt : Bool} {lbl : String
     have htid2 : tid < (q2cfg c).ths.length := (List.getElem?_eq_some_iff.mp hq2).1
     obtain ⟨hrole, hspec⟩ := postProd_spec tid t s2' b' hxi
     have hr' : (postProd tid t s2' b').role = .l2 := by rw [hrole]; exact hr
-    rcases hspec with ⟨e1, e2, e3, e4⟩ | ⟨e1, ⟨y, e2⟩, e3, e4⟩ | ⟨e1, e2, e3, e4⟩ | ⟨e1, e2, e3, e4⟩
-    · refine good_mk2 hg ht hrole ?_ (.keep ?_) (v1_l2_off hr' (by simp [e3]) (by simp [e3])) (v2_l2 hr')
+    have hst0 : t.started = true := by
+      simp only [Th.started, hr, bne_iff_ne, ne_eq]; exact fun e => hn1 e
+    have hnc : t.role ≠ .cons := by rw [hr]; simp
+    have hkindb : pcKind t.b.pc = some .producer := by
+      rw [kind_of_tok htok (fun e => hn1 e) (fun e => hn3 e), hkb]
+    obtain ⟨hE1, hE2⟩ := stepThread_end l s2' b' hst
+    rcases hspec with ⟨e1, e2, e3, e4⟩ | ⟨e1, ⟨y, e2⟩, e3, e4⟩ | ⟨e1, e2, e3, e4⟩ | ⟨e1, e2, e3, e4, e5⟩
+    · refine good_mk2 hg ht hrole ?_ (.keep ?_)
+        (aux_task hnc id (fun ho => by simp [Owes, e3] at ho) (by simp [Th.started, hr', e2, hp1]) (.inl hst0))
+        (v1_l2_off hr' (by simp [e3]) (by simp [e3])) (v2_l2 hr')
         (live_keep hg.live1 hq1) (by rw [e2]; exact h1) hc1 hc2'
       · unfold TI; simp [hr', e2, e3, e4, hkb', e1, hres]
       · simp [HoldsI, hr, hr', e3, hxi]
-    · refine good_mk2 hg ht hrole ?_ (.keep ?_) (v1_l2_off hr' (by simp [e3]) (by simp [e3])) (v2_l2 hr')
+    · refine good_mk2 hg ht hrole ?_ (.keep ?_)
+        (aux_task hnc id (fun ho => by simp [Owes, e3, e2, tRegion] at ho) (by simp [Th.started, hr', e2]) (.inl hst0))
+        (v1_l2_off hr' (by simp [e3]) (by simp [e3])) (v2_l2 hr')
         (live_keep hg.live1 hq1) ?_ hc1 hc2'
       · unfold TI; simp [hr', e2, e3, e4, hkb', hres]
       · simp [HoldsI, hr, hr', e3, hxi]
@@ -766,13 +914,42 @@ theorem good_stepL2 {c c' : Cfg} {tid : Tid} {t : Th} {alt : Bool} {lbl : String
         have := live_enext_val (b := { b' with pc := .pAcq, v := (tid, y) }) h1 (by show s2'.timeout = false; exact hc2'.1)
           (by show ((q2cfg c).ths.set tid b')[tid]? = some b'; simp [htid2]) e1 ⟨rfl, rfl, rfl, rfl, rfl, rfl⟩
         simpa [List.set_set] using this
-    · refine good_mk2 hg ht hrole ?_ (.keep ?_) (w1 := stopperAt t.a) (by rw [v1_l2_on hr' (.inr e3), e4]) (v2_l2 hr')
+    · refine good_mk2 hg ht hrole ?_ (.keep ?_)
+        (aux_task hnc id (fun ho => by simp [Owes, e3] at ho) (by simp [Th.started, hr', e2, hp1]) (.inl hst0))
+        (w1 := stopperAt t.a) (by rw [v1_l2_on hr' (.inr e3), e4]) (v2_l2 hr')
         (live_inert_to_stopper (qc := q1cfg c) hg.live1 hq1 hres) (by rw [e2]; exact h1) hc1 hc2'
       · unfold TI
         simp [hr', e2, e3, e4, hkb', e1, show (stopperAt t.a).prog.kind = PKind.stopper from rfl,
           show (stopperAt t.a).pc = Pc.mAcq from rfl]
       · simp [HoldsI, hr, hr', e3, hxi]
-    · refine good_mk2 hg ht hrole ?_ (.keep ?_) (v1_l2_off hr' (by simp [e3]) (by simp [e3])) (v2_l2 hr')
+    · have howes : Owes (postProd tid t s2' b') → c.s1.enqueueDone = true := by
+        rintro ⟨-, ho | ho | ho⟩
+        · rw [e3] at ho; cases ho.1
+        · rw [e2] at ho
+          rcases hE1 ho.2.1 with ⟨hreg, hre⟩ | he | ⟨-, hre⟩
+          · exact hi.d1 t (List.mem_of_getElem? ht) ⟨hr, .inr (.inl ⟨hxi, hreg, by rw [← hre]; exact ho.2.2⟩)⟩
+          · exact absurd he (fun e => hn2 e)
+          · rw [ho.2.2] at hre; cases hre
+        · rw [e2] at ho
+          have hw := e5 ho.2
+          rcases hE2 ho.2 hkindb with ⟨htr, hout⟩ | ⟨htr, hreg, hdn, hrets, hre⟩
+          · have hnone : t.b.reraise = none := by
+              simp only [wantUp, htr, beq_self_eq_true, if_true, hout] at hw
+              cases hrr : t.b.reraise with
+              | none => rfl
+              | some e => rw [hrr] at hw; simp at hw
+            exact hi.d1 t (List.mem_of_getElem? ht) ⟨hr, .inr (.inl ⟨hxi, by rw [htr]; rfl, hnone⟩)⟩
+          · exfalso
+            have hne : (t.b.pc == Pc.tRel) = false := by simpa using htr
+            simp only [wantUp, hne, Bool.false_eq_true, if_false, Bool.or_eq_false_iff] at hw
+            have hstop : stopped b' = false := by
+              have := stopped_false_of_TL (hg.live2.base.tl t.b (List.mem_of_getElem? hq2)) hkindb hreg
+              simpa [stopped, hrets, hre] using this
+            exact no_early_by_count h1 (by show ((q2cfg c).ths.set tid b')[tid]? = some b'; simp [htid2]) hkb' ho.2
+              hstop hdn hw.1 hw.2
+      refine good_mk2 hg ht hrole ?_ (.keep ?_)
+        (aux_task hnc id howes (by simp [Th.started, hr', e2, hp1]) (.inl hst0))
+        (v1_l2_off hr' (by simp [e3]) (by simp [e3])) (v2_l2 hr')
         (live_keep hg.live1 hq1) (by rw [e2]; exact h1) hc1 hc2'
       · unfold TI; simp [hr', e2, e3, e4, hkb', e1, hres]
       · simp [HoldsI, hr, hr', e3, hxi]
